@@ -856,6 +856,38 @@ func c19DerivedIndexes(r *Run) {
 func c19ExportShape(r *Run) {
 	c19ForeignStrings(r)
 	P := r.P
+	r.Rule("R10", "PATH.hand-jailing-leaves-the-power-index: the zero-height export jails the validators that are not on the allow-list by setting Validator.Jailed itself (not through the keeper's jail routine, which also removes the record from the power index); every such store of true is preceded on every path by DeleteValidatorByPowerIndex for that validator — the very next step, ApplyAndReturnValidatorSetUpdates, walks the power index and panics on a jailed record, so no genesis document is produced")
+	{
+		n := 0
+		for _, fn := range P.Funcs {
+			if !isHaqqPath(fnPkgPath(fn)) || isTestSupport(P, fn) || fn.Synthetic != "" {
+				continue
+			}
+			outer := outermost(fn)
+			if outer.Name() != "prepForZeroHeightGenesis" {
+				continue
+			}
+			eachInstr(fn, func(in ssa.Instruction) {
+				st, ok := in.(*ssa.Store)
+				if !ok {
+					return
+				}
+				sn, f, ok := fieldOfAddr(st.Addr)
+				if !ok || sn != "Validator" || f != "Jailed" {
+					return
+				}
+				if c, isC := st.Val.(*ssa.Const); !isC || !constBool(c) {
+					return
+				}
+				n++
+				w := PathQuery{Fn: fn, Block: isCallMatching(func(g CallInfo) bool { return g.Name == "DeleteValidatorByPowerIndex" }),
+					Target: func(x ssa.Instruction) bool { return x == in }}.Search()
+				r.Check(w == nil, "R10", fmt.Sprintf("%s#jailed-by-hand-%d-leaves-the-power-index", fnID(fn), n), P.Pos(instrPos(in)), "preceded by DeleteValidatorByPowerIndex on every path",
+					"the zero-height export sets Validator.Jailed = true and stores the record without removing it from the power index: `export --for-zero-height --jail-allowed-addrs <genesis validator>` on a chain with a second bonded validator panics in ApplyAndReturnValidatorSetUpdates ('should never retrieve a jailed validator from the power store') — there is no exported document to re-import", P.witness(w)...)
+			})
+		}
+		r.Floor("R10", "stores of Validator.Jailed = true in the zero-height preparation", n, 1)
+	}
 	r.Rule("R8", "PATH.export-is-importable: (a) the EVM module's ExportGenesis lists an account only over the edge on which its address is 20 bytes long — the bank keeper creates an EthAccount for any recipient address length, EthAddress() crops to the last 20 bytes, and InitGenesis looks the cropped address up and panics ('account not found'): one transfer to a 32-byte address made every later export un-importable; (b) the zero-height export decodes validator store keys with the staking module's key function, never by slicing iter.Key() at a fixed offset (keys are length-prefixed since SDK 0.43: the hand-sliced address is 21 bytes and no validator is ever found)")
 	if eg, ok := P.FnOK("x/evm.ExportGenesis"); ok {
 		bad := ""
